@@ -10,6 +10,9 @@ package netpoll
 // Scenario spec:  kind=flush,ctor=std|fd,calls=<c1.c2…>,k=<kernel script>,ev=<h|->,closers=<n>,f2=<n>
 //
 //	call  = <op><n>[u|t|d|x]   op: W c.Write(p[:n])   F Malloc(n) (if n>0) then Flush()   M WriteBinary(n bytes), no flush
+//	                           V n x Append(a LinkBuffer holding 7 malloc'ed bytes), no flush: n more NODES in the output buffer (what
+//	                             mux.ShardQueue does with a burst of messages); with more than barriercap (32) non-empty nodes one
+//	                             GetBytes/sendmsg offers only a prefix of the buffer (K line: vecs=32, offered < output length)
 //	                           u no write timeout (default), t SetWriteTimeout(1h), d SetWriteDeadline(now+1h),
 //	                           x SetWriteDeadline(now-1s).  Expiry of the write timer is the step of actor `wtimer`.
 //	k     = entries joined by '.', consumed one per sendmsg on the connection's descriptor (the flusher's sendmsg in
@@ -74,7 +77,7 @@ func vsParseFlScn(spec string) (vsFlScn, error) {
 				return sc, err
 			}
 			for _, c := range cs {
-				if !strings.ContainsRune("WFM", rune(c.op)) {
+				if !strings.ContainsRune("WFMV", rune(c.op)) {
 					return sc, fmt.Errorf("unknown flusher op %q", string(c.op))
 				}
 			}
@@ -251,6 +254,12 @@ func (r *vsFlRun) flushCall(i int, cl vsCall) (res string) {
 		err = c.Flush()
 	case 'M':
 		_, err = c.WriteBinary(make([]byte, cl.n))
+	case 'V':
+		for j := 0; j < cl.n && err == nil; j++ {
+			lb := NewLinkBuffer(16)
+			lb.Malloc(7) // pending (not flushed) in lb: Append adds it to the connection's pending bytes, the next Flush submits it
+			err = c.Append(lb)
+		}
 	}
 	r.f1Sent = false
 	res = vsErrClass(err)
